@@ -391,6 +391,15 @@ pub fn run_check(prop: &dyn Property, tier: Tier) -> i32 {
         }
     }
 
+    // replay files of earlier runs of this (property, tier, seed) are stale
+    if let Ok(rd) = std::fs::read_dir("/verif/replays") {
+        let prefix = format!("{id}-{}-s{seed}-", tier.name());
+        for e in rd.flatten() {
+            if e.file_name().to_string_lossy().starts_with(&prefix) {
+                let _ = std::fs::remove_file(e.path());
+            }
+        }
+    }
     // 2. generated search
     let cases = prop.generate(tier, seed);
     let chunk = 2400;
